@@ -121,6 +121,7 @@ def check(ctx):
 
     # ---- R8 emission in templates -------------------------------------------------
     _r8(ctx)
+    rhs_writers(ctx, "R9")
 
 
 def reaction_sites(ctx, m, r_loss="R2", r_gain="R3"):
@@ -393,6 +394,15 @@ def _filtered_create(v):
     return True, ""
 
 
+def rhs_writers(ctx, rule):
+    """R9 (shared with C04): in the generated RHS functions nothing but the pasted equations writes ydot, and the working copy of
+    the abundances is the abundance vector itself."""
+    from .. import cwriters as W
+    n = W.check_writers(ctx, rule, [W.FEX, W.ODE], W.RHS_ARRAYS, "the derivative / the abundance vector the equations read",
+                        funcs={"Fex", "FexKernel", "Fex::operator()"})
+    ctx.floor(rule, "reviewed static writes in RHS functions", n, 2)
+
+
 WS_FILTERS = {"stmwrap"}
 
 
@@ -478,6 +488,8 @@ def _r8(ctx):
 # ---------------------------------------------------------------------- self-validation
 T = FILE
 MUTANTS = [
+    {"name": "odeint-fex-clips-abundances", "file": TEMPLATES["odeint"], "old": "        y[i] = abund[i];\n    }\n\n    {% set components = network.reactions + network.grains + network.heating + network.cooling -%}\n    {% for key, _ in components | collect_variable_items(\"params\") -%}", "new": "        y[i] = fmax(abund[i], 0.0);\n    }\n\n    {% set components = network.reactions + network.grains + network.heating + network.cooling -%}\n    {% for key, _ in components | collect_variable_items(\"params\") -%}", "count": 2, "rules": ["R9"]},
+    {"name": "cvode-fex-zeroes-exhausted", "file": TEMPLATES["cvode"], "old": "#if ((NHEATPROCS || NCOOLPROCS) && NAUNET_DEBUG)\n    printf(\"Total heating/cooling rate", "new": "    for (int i = 0; i < NSPECIES; i++) {\n        if (y[i] <= 0.0 && ydot[i] < 0.0) ydot[i] = 0.0;\n    }\n#if ((NHEATPROCS || NCOOLPROCS) && NAUNET_DEBUG)\n    printf(\"Total heating/cooling rate", "rules": ["R9"]},
     {"name": "loss-sign", "file": T, "old": 'rhs[specidx] += f" - {rate_sym}[{rl}]*{rsym_mul}"', "new": 'rhs[specidx] += f" + {rate_sym}[{rl}]*{rsym_mul}"', "rules": ["R2"]},
     {"name": "gain-sign", "file": T, "old": 'rhs[specidx] += f" + {rate_sym}[{rl}]*{rsym_mul}"', "new": 'rhs[specidx] += f" - {rate_sym}[{rl}]*{rsym_mul}"', "rules": ["R3"]},
     {"name": "row-set", "file": T, "old": "            for specidx in rspecidx:\n                rhs[specidx] += f\" - ", "new": "            for specidx in set(rspecidx):\n                rhs[specidx] += f\" - ", "rules": ["R2"]},
